@@ -19,6 +19,7 @@ def run(prog, tier, extra=None):
     res = Result("C18", "other")
     R1 = res.rule("C18.header", "generate_lite_block copies every identity/header field from the same field of the full block", floor=30)
     R2 = res.rule("C18.retention", "a transaction is replaced by a placeholder only if no input and no output key is listed", floor=2)
+    R3 = res.rule("C18.ordinal", "a kept transaction gets the ordinal it has in the full block: the counter advances by a placeholder's txs_replacements", floor=1)
     lb = prog.body(BLK + "generate_lite_block")
     if lb is None:
         raise LookupError("generate_lite_block not found")
@@ -126,6 +127,41 @@ def run(prog, tier, extra=None):
                                 chooser.loc(placeholder[0])))
             else:
                 res.sample({"rule": R2, "side": field, "test": [chooser.loc(x) for x in edges["sites"]], "verdict": "placeholder only when no listed key on this side"})
+    # R3: the slips of a kept transaction are keyed by (block id, transaction ordinal, slip index). A receiver regenerates them from
+    # the lite block, in which runs of omitted transactions are merged into placeholders; the ordinal handed to Transaction::generate
+    # must therefore be a counter that a placeholder advances by the number of transactions it stands for (txs_replacements), not the
+    # position in the (shorter) lite list. Necessary for "contains those transactions in full": a wrong ordinal changes the outputs' keys.
+    TXGEN = CORE + "consensus::transaction::Transaction::generate"
+    gen_bodies = [b for b in prog.all_bodies() if (b.path == BLK + "generate" or b.path.startswith(BLK + "generate::{closure")) and not b.is_promoted]
+    n_calls = 0
+    for gb in gen_bodies:
+        gch = Chaser(gb)
+        for bb, t in gb.calls():
+            if (t.get("res") or t.get("callee")) != TXGEN or len(t["args"]) < 3:
+                continue
+            n_calls += 1
+            res.instance(R3)
+
+            def depends_on_replacements(e, seen):
+                if has_field(e, "transaction::Transaction", "txs_replacements"):
+                    return True
+                for x in walk(e):
+                    if x[0] == "local" and x[1] not in seen:
+                        seen.add(x[1])
+                        for d in gb.defs(x[1]):
+                            if d[0] == "stmt" and depends_on_replacements(gch.rvalue(d[3], 0), seen):
+                                return True
+                return False
+            arg = gch.origin(t["args"][2])
+            if depends_on_replacements(arg, set()):
+                res.sample({"rule": R3, "site": gb.loc(bb), "ordinal": show(arg)[:60], "verdict": "a counter that adds txs_replacements for placeholders"})
+            else:
+                res.add(Finding(R3, "C18.ordinal|%s" % gb.path, "Block::generate hands Transaction::generate an ordinal (%s) that does not account for txs_replacements: in a lite block "
+                                "a transaction kept after a merged placeholder gets its position in the lite list, and its regenerated slips differ from the full block's"
+                                % show(arg)[:50], gb.loc(bb)))
+    if n_calls == 0:
+        res.instance(R3)
+        res.add(Finding(R3, "C18.ordinal|anchors", "Block::generate no longer calls Transaction::generate (anchor moved?)", lb.loc(0)))
     res.explanation = (
         "Decides header coverage of the lite projection: every Block field that enters the signed bytes or the fixed wire header (plus hash and signature) is copied from "
         "the same field of the full block, merkle_root is recomputed from the projected transaction list, and the per-transaction chooser can build a placeholder only when "
